@@ -68,7 +68,13 @@ func checkC17(c *Ctx) {
 				}
 				if strings.Contains(k.Key(b.X), kTree+"branchFactor") || strings.Contains(k.Key(b.Y), kTree+"branchFactor") {
 					n++
-					if !allowed[shortName(declaredParent(fn))] {
+					okOwner := allowed[shortName(declaredParent(fn))]
+					for _, o := range p.ownerChain(fn) {
+						if allowed[shortName(o)] {
+							okOwner = true // a private helper of a layout function
+						}
+					}
+					if !okOwner {
 						extra = append(extra, shortName(fn)+" ("+p.InstrPos(in)+")")
 					}
 				}
@@ -128,30 +134,63 @@ func checkC17(c *Ctx) {
 		c.Unresolved("C17.3", "Tree", "anchor missing")
 		return
 	}
-	fco := NewFlow(p, co)
+	fcoRoot := NewFlow(p, co)
+	fco := fcoRoot
 	var sl *ssa.Slice
-	eachInstr(co, func(in ssa.Instruction) {
-		if s, ok := in.(*ssa.Slice); ok && strings.HasSuffix(fco.K.Key(s.X), kTree+"treePosToID") {
-			sl = s
+	var slD DeepInstr
+	// the slice expression: in ChildrenOf or in a private helper of the package it delegates to (facts in ChildrenOf's terms)
+	for _, d := range deepInstrs(fcoRoot, func(in ssa.Instruction) bool {
+		s, ok := in.(*ssa.Slice)
+		return ok && strings.HasSuffix(NewKeyer(p, in.Parent()).Key(s.X), kTree+"treePosToID")
+	}, 0) {
+		sl, slD, fco = d.Instr.(*ssa.Slice), d, d.Flow
+	}
+	// polynomial environment of the function holding the slice: its parameters as ChildrenOf's expressions
+	var slEnv map[*ssa.Parameter]poly
+	if sl != nil && slD.In != co && len(slD.Path) > 0 {
+		slEnv = map[*ssa.Parameter]poly{}
+		call := slD.Path[len(slD.Path)-1]
+		callerK := fcoRoot.K
+		if len(slD.Path) > 1 {
+			callerK = NewKeyer(p, call.Parent())
 		}
-	})
+		for i, a := range call.Common().Args {
+			if i < len(slD.In.Params) {
+				ak := callerK.Key(a)
+				switch {
+				case strings.Contains(ak, posName+"("):
+					slEnv[slD.In.Params[i]] = polySym("pos")
+				case strings.HasSuffix(ak, kTree+"branchFactor"):
+					slEnv[slD.In.Params[i]] = polySym("B")
+				}
+			}
+		}
+	}
 	if sl == nil {
 		c.Unresolved("C17.3", "ChildrenOf", "slice expression not found")
 	} else {
-		facts := fco.At(sl)
+		facts := slD.Facts
 		lenK := func(k string) bool { return strings.HasPrefix(k, "builtin len(p0."+kTree+"treePosToID)") }
 		posK := func(k string) bool { return strings.Contains(k, posName+"(") }
 		okKnown := hasCmp(facts, "!=", posK, is("c:-1"))
-		lowK := fco.K.Key(sl.Low)
+		lowK := slD.Key(sl.Low)
 		okStart := hasCmp(facts, "<", is(lowK), lenK)
 		// the high bound is min(start+B, n): every leaf of High is <= len
 		okEnd := true
 		for _, lf := range leaves(fco, sl.High, sl) {
-			hk := lf.KeyIn(fco)
+			hk := slD.ToRoot(lf.KeyIn(fco))
 			if lenK(hk) {
 				continue
 			}
-			if !hasCmp(lf.Facts, "<=", is(hk), lenK) {
+			lfacts := FactSet{}
+			for f := range lf.Facts {
+				g := Fact{f.Op, slD.ToRoot(f.L), ""}
+				if f.R != "" {
+					g.R = slD.ToRoot(f.R)
+				}
+				lfacts[g] = true
+			}
+			if !hasCmp(lfacts, "<=", is(hk), lenK) {
 				okEnd = false
 			}
 		}
@@ -207,6 +246,7 @@ func checkC17(c *Ctx) {
 		}
 	}
 	if sl != nil {
+		polyOf := func(v ssa.Value, sy func(ssa.Value) string) poly { return polyOfEnv(v, sy, slEnv, 0) }
 		start := polyOf(sl.Low, sym(kco))
 		wantStart := polySym("pos").mul(polySym("B")).add(polyConst(1), 1)
 		c.Check(start.eq(wantStart), "C17.4", "ChildrenOf: first child position = pos*B + 1", p.InstrPos(sl), "childStart = "+start.String(), "childStart = "+start.String()+", expected pos*B + 1")
@@ -225,31 +265,35 @@ func checkC17(c *Ctx) {
 		c.Check(okEnd, "C17.4", "ChildrenOf: child range has B positions (clamped to n)", p.InstrPos(sl), "childEnd - childStart = B, i.e. children of p are p*B+1 .. p*B+B", "childEnd = "+endStr)
 	}
 	{
-		kp := NewKeyer(p, par)
 		ok := false
 		got := ""
-		eachInstr(par, func(in ssa.Instruction) {
-			b, isB := in.(*ssa.BinOp)
-			if !isB || b.Op != token.QUO {
-				return
+		fpar := NewFlow(p, par)
+		rootOK := false
+		// the division: in Parent or in a pure helper of the package (`parentPosition(pos, bf)`)
+		for _, d := range deepInstrs(fpar, func(in ssa.Instruction) bool { b, isB := in.(*ssa.BinOp); return isB && b.Op == token.QUO }, 0) {
+			b := d.Instr.(*ssa.BinOp)
+			var env map[*ssa.Parameter]poly
+			if d.In != par && len(d.Path) > 0 {
+				env = map[*ssa.Parameter]poly{}
+				call := d.Path[len(d.Path)-1]
+				for i, a := range call.Common().Args {
+					if i < len(d.In.Params) {
+						env[d.In.Params[i]] = polyOf(a, sym(NewKeyer(p, call.Parent())))
+					}
+				}
 			}
-			num := polyOf(b.X, sym(kp))
-			den := polyOf(b.Y, sym(kp))
+			kd := d.Flow.K
+			num := polyOfEnv(b.X, sym(kd), env, 0)
+			den := polyOfEnv(b.Y, sym(kd), env, 0)
 			got = "(" + num.String() + ") div (" + den.String() + ")"
 			if num.eq(polySym("pos").add(polyConst(1), -1)) && den.eq(polySym("B")) {
 				ok = true
 			}
-		})
-		// the root is recognised before dividing
-		fpar := NewFlow(p, par)
-		rootOK := false
-		eachInstr(par, func(in ssa.Instruction) {
-			if b, isB := in.(*ssa.BinOp); isB && b.Op == token.QUO {
-				if hasCmp(fpar.At(in), "!=", func(k string) bool { return strings.Contains(k, posName+"(") }, is("c:0")) {
-					rootOK = true
-				}
+			// the root is recognised before dividing
+			if hasCmp(d.Facts, "!=", func(k string) bool { return strings.Contains(k, posName+"(") }, is("c:0")) {
+				rootOK = true
 			}
-		})
+		}
 		c.Check(ok && rootOK, "C17.4", "Parent: parent position = (pos-1) div B, root excluded", p.FuncPos(par),
 			"parentPos = "+got+"; for c in [p*B+1, p*B+B] this is p (0 <= c-1-p*B < B), and conversely c lies in the child range of (c-1) div B: exactly one parent, listed among that parent's children only",
 			"parent expression is "+got+", root test before division: "+boolStr(rootOK))
